@@ -581,6 +581,17 @@ class _WhileTrue(ast.NodeTransformer):
                 t = first.test
                 neg = t.operand if isinstance(t, ast.UnaryOp) and isinstance(t.op, ast.Not) else ast.copy_location(ast.UnaryOp(op=ast.Not(), operand=t), t)
                 return ast.copy_location(ast.While(test=neg, body=node.body[1:], orelse=first.body), node)
+            # `while True: if t: break; <rest>`  is  `while not t: <rest>`
+            if isinstance(first, ast.If) and not first.orelse and len(first.body) == 1 and isinstance(first.body[0], ast.Break):
+                t = first.test
+                if isinstance(t, ast.UnaryOp) and isinstance(t.op, ast.Not):
+                    neg = t.operand
+                elif isinstance(t, ast.Compare) and len(t.ops) == 1 and type(t.ops[0]) in (ast.Eq, ast.NotEq, ast.Is, ast.IsNot, ast.In, ast.NotIn):
+                    flip = {ast.Eq: ast.NotEq, ast.NotEq: ast.Eq, ast.Is: ast.IsNot, ast.IsNot: ast.Is, ast.In: ast.NotIn, ast.NotIn: ast.In}
+                    neg = ast.copy_location(ast.Compare(left=t.left, ops=[flip[type(t.ops[0])]()], comparators=t.comparators), t)
+                else:
+                    neg = ast.copy_location(ast.UnaryOp(op=ast.Not(), operand=t), t)
+                return ast.copy_location(ast.While(test=neg, body=node.body[1:], orelse=[]), node)
         return node
 
 
